@@ -621,6 +621,486 @@ theorem MidInv.unsew1 {cfg : Cfg Val} {s s' : Map Val} {l : Nat} (J : MidInv n u
       (by rw [e1]; exact vne _ k1), fc1.2.1]
     exact J.val
 
+open HC.C03 HC.C04 in
+theorem MidInv.sew1 {cfg : Cfg Val} {s s' : Map Val} {l r : Nat} (J : MidInv n u nd1 nd2 nd3 w s)
+    (L1 : Live n u nd1) (L3 : Live n u nd3)
+    (hrun : run (oneSew2 cfg n l r) s = (.ok (), s')) (hl : Live n u l) (hr : Live n u r)
+    (c1 : l ≠ nd2) (c2 : r ≠ nd3) (c3 : r = nd1 → s.β 2 l = 0)
+    (c4 : s.β 2 l ≠ 0 → s.β 2 l ≠ nd1 ∧ s.β 2 l ≠ nd3 ∧ r ≠ nd1) : MidInv n u nd1 nd2 nd3 w s' := by
+  have hw := J.inv.wf
+  have hn := J.inv.n_eq
+  have inv' := keeps_oneSew2 cfg n hl hr s s' () J.inv hrun
+  obtain ⟨m1, hcore, st, cases⟩ := C04_oneSew2_effect cfg n l r s s' () J.fc hrun
+  obtain ⟨_, _, sc⟩ := step_oneLinkCore hcore
+  have inv1 : Inv n u m1 := Keeps.oneLinkCore hl hr s m1 () J.inv hcore
+  have nv1 : NV m1.β nd1 nd2 nd3 := by rw [sc.β]; exact J.nv.lnk1 c1 c2 c3
+  have nv' : NV s'.β nd1 nd2 nd3 := by rw [β_of_sameTopo st]; exact nv1
+  have fc1 := link1_fc hcore
+  rcases cases with ⟨_, rfl⟩ | ⟨h2, v1, v2, nv, hv1, hv2, hnv, mg⟩
+  · exact ⟨inv', by rw [fc1.1]; exact J.fc, nv', by rw [fc1.2.1]; exact J.val⟩
+  · obtain ⟨d1, d2, d3⟩ := c4 h2
+    have l2 : s.β 2 l < s.n := hw.range 2 (by omega) l (by rw [hn]; exact hl.2.1)
+    have rn : r < s.n := by rw [hn]; exact hr.2.1
+    have A := vertex_of_NV hw J.nv L1.1 (by rw [hn]; exact L1.2.1) L3.1 (by rw [hn]; exact L3.2.1)
+    have A1 := vertex_of_NV inv1.wf nv1 L1.1 (by rw [inv1.n_eq]; exact L1.2.1) L3.1 (by rw [inv1.n_eq]; exact L3.2.1)
+    have hn1 : m1.n = s.n := by rw [inv1.n_eq, hn]
+    have e1 : v1 = cellId s .vertex (s.β 2 l) := by
+      have := (C03_vertexId2_min hw h2 l2).1; rw [hn] at this; exact run_inj hv1 this
+    have e2 : v2 = cellId s .vertex r := by
+      have := (C03_vertexId2_min hw hr.1 rn).1; rw [hn] at this; exact run_inj hv2 this
+    have e3 : nv = cellId m1 .vertex r := by
+      have := (C03_vertexId2_min inv1.wf hr.1 (by rw [hn1]; exact rn)).1; rw [inv1.n_eq] at this; exact run_inj hnv this
+    have k1 := A.2 _ h2 l2 d1 d2
+    have k2 := A.2 _ hr.1 rn d3 c2
+    have k3 := A1.2 _ hr.1 (by rw [hn1]; exact rn) d3 c2
+    have vne : ∀ x, x ≠ nd1 ∧ x ≠ nd3 → min nd1 nd3 ≠ x := by
+      intro x ⟨x1, x3⟩ hh; omega
+    refine ⟨inv', by rw [mg.fc, fc1.1]; exact J.fc, nv', ?_⟩
+    rw [mg.frame 0 _ (by simp [vStores]) (by rw [e3]; exact vne _ k3) (by rw [e1]; exact vne _ k1)
+      (by rw [e2]; exact vne _ k2), fc1.2.1]
+    exact J.val
+
+end
+
+/-! ### pieces that neither touch the vertex storage nor the fault countdown -/
+
+/-- a successful run keeps the fault countdown and every slot of storage 0 -/
+def Keeps0 {α : Type} (p : P Val α) : Prop :=
+  ∀ (m m' : Map Val) (a : α), run p m = (.ok a, m') → m'.fc = m.fc ∧ ∀ x, m'.att 0 x = m.att 0 x
+
+theorem Keeps0.bind {α β : Type} {p : P Val α} {q : α → P Val β} (hp : Keeps0 p) (hq : ∀ a, Keeps0 (q a)) :
+    Keeps0 (p.bind q) := by
+  intro m m' b h
+  obtain ⟨a, m1, h1, h2⟩ := run_bind_ok h
+  obtain ⟨f1, a1⟩ := hp m m1 a h1
+  obtain ⟨f2, a2⟩ := hq a m1 m' b h2
+  exact ⟨by rw [f2, f1], fun x => by rw [a2, a1]⟩
+
+theorem Keeps0.ro {α : Type} {p : P Val α} (hp : ReadOnly p) : Keeps0 p := by
+  intro m m' a h
+  have := hp.run_ok h; subst this
+  exact ⟨rfl, fun _ => rfl⟩
+
+theorem Keeps0.pure {α : Type} (a : α) : Keeps0 (Pure.pure a : P Val α) := Keeps0.ro (ReadOnly.pure a)
+
+theorem Keeps0.ite {α : Type} {c : Prop} [Decidable c] {p q : P Val α} (hp : Keeps0 p) (hq : Keeps0 q) :
+    Keeps0 (if c then p else q) := by
+  split <;> assumption
+
+theorem keeps0_wA {s id : Nat} (hs : s ≠ 0) (v : Option Val) : Keeps0 (wA s id v : P Val Unit) := by
+  intro m m' a h
+  rw [run_wA'] at h
+  split at h
+  · simp at h
+    rw [← h]
+    refine ⟨rfl, fun x => ?_⟩
+    rw [Map.att_setA]; simp [hs]
+  · simp at h
+
+theorem keeps0_writeAttr (cfg : Cfg Val) {s : Nat} (hs : s ≠ 0) (id : Nat) (v : Val) : Keeps0 (writeAttr cfg s id v) := by
+  unfold writeAttr
+  refine Keeps0.ite ?_ (Keeps0.pure _)
+  refine Keeps0.bind (Keeps0.ro (ReadOnly.rA _ _)) fun _ => ?_
+  exact Keeps0.bind (keeps0_wA hs _) fun _ => Keeps0.pure _
+
+theorem keeps0_removeAttr (cfg : Cfg Val) {s : Nat} (hs : s ≠ 0) (id : Nat) : Keeps0 (removeAttr cfg s id) := by
+  unfold removeAttr
+  refine Keeps0.ite ?_ (Keeps0.pure _)
+  refine Keeps0.bind (Keeps0.ro (ReadOnly.rA _ _)) fun _ => ?_
+  exact Keeps0.bind (keeps0_wA hs _) fun _ => Keeps0.pure _
+
+theorem keeps0_takeFaceAnchor (cfg : Cfg Val) (k d : Nat) : Keeps0 (takeFaceAnchor cfg k d) := by
+  unfold takeFaceAnchor
+  refine Keeps0.ite ?_ (Keeps0.pure _)
+  exact Keeps0.bind (Keeps0.ro (readOnly_faceId2 _ _)) fun _ => keeps0_removeAttr cfg (by simp [stFA]) _
+
+theorem keeps0_spreadFaceAnchor (cfg : Cfg Val) (k : Nat) (fa : Option Val) (a b : Nat) :
+    Keeps0 (spreadFaceAnchor cfg k fa a b) := by
+  unfold spreadFaceAnchor
+  cases fa
+  · exact Keeps0.pure _
+  · refine Keeps0.bind (Keeps0.ro (readOnly_faceId2 _ _)) fun _ => ?_
+    refine Keeps0.bind (Keeps0.ro (readOnly_faceId2 _ _)) fun _ => ?_
+    refine Keeps0.bind (keeps0_writeAttr cfg (by simp [stFA]) _ _) fun _ => ?_
+    refine Keeps0.bind (keeps0_writeAttr cfg (by simp [stFA]) _ _) fun _ => ?_
+    refine Keeps0.ite ?_ (Keeps0.pure _)
+    refine Keeps0.bind (Keeps0.ro (readOnly_edgeId2 _)) fun _ => ?_
+    exact Keeps0.bind (keeps0_writeAttr cfg (by simp [stEA]) _ _) fun _ => Keeps0.pure _
+
+theorem keeps0_spreadEdgeAnchorOuter (cfg : Cfg Val) (k : Nat) (ea : Option Val) (a b : Nat) :
+    Keeps0 (spreadEdgeAnchorOuter cfg k ea a b) := by
+  unfold spreadEdgeAnchorOuter
+  cases ea
+  · exact Keeps0.pure _
+  · refine Keeps0.bind (Keeps0.ro (readOnly_vertexId2 _ _)) fun _ => ?_
+    refine Keeps0.bind (keeps0_writeAttr cfg (by simp [stVA]) _ _) fun _ => ?_
+    refine Keeps0.bind (Keeps0.ro (readOnly_edgeId2 _)) fun _ => ?_
+    exact Keeps0.bind (keeps0_writeAttr cfg (by simp [stEA]) _ _) fun _ => Keeps0.pure _
+
+theorem ro_peekEdgeAnchor (cfg : Cfg Val) (e : Nat) : ReadOnly (peekEdgeAnchor cfg e) := by
+  unfold peekEdgeAnchor readAttr
+  exact ReadOnly.ite (ReadOnly.ite (ReadOnly.rA _ _) (ReadOnly.pure _)) (ReadOnly.pure _)
+
+theorem ro_midpointOrRetry (v1 v2 : Nat) : ReadOnly (midpointOrRetry v1 v2) := by
+  unfold midpointOrRetry
+  refine ReadOnly.bind (ReadOnly.rA _ _) fun a => ?_
+  refine ReadOnly.bind (ReadOnly.rA _ _) fun b => ?_
+  cases a <;> cases b
+  · exact ro_retry
+  · exact ro_retry
+  · exact ro_retry
+  · exact ReadOnly.pure _
+
+theorem lnk1_two (g : Nat → Nat → Nat) (l r x : Nat) : lnk1 g l r 2 x = g 2 x := by simp [lnk1, upd_apply]
+theorem unl1_two (g : Nat → Nat → Nat) (l x : Nat) : unl1 g l 2 x = g 2 x := by simp [unl1, upd_apply]
+
+/-- nobody is 2-sewn to a free dart -/
+theorem beta2_ne_spare {m : Map Val} (hwf : WF 3 m) {x : Nat} (sx : Spare m x) {y : Nat} (hy : y < m.n) : m.β 2 y ≠ x := by
+  intro hh
+  have h0 : m.β 2 y ≠ 0 := by rw [hh]; exact sx.1.1
+  have := (hwf.invol 2 (by omega) (by omega) y hy h0).1
+  rw [hh, sx.β 2 (by omega)] at this
+  rw [← this, hwf.null 2 (by omega)] at hh
+  exact sx.1.1 hh.symm
+
+open HC.C03 HC.C04 in
+/-- **C15, cut_outer_edge, the midpoint in the FINAL map**: on ANY well-formed 2-map (no fault injected), after a
+    successful `cut_outer_edge(e, [nd1, nd2, nd3])` on a boundary dart (`β2 e` null) of a closed triangle, with free
+    in-use spare darts in ANY numbering, the new vertex `{nd1, nd3}` has the identifier `min(nd1, nd3)` in the resulting
+    map and the vertex storage holds there the average of the two end points — the values found at `vertex_id(e)` and
+    `vertex_id(β1 e)` (computed, as the kernel does, in the map `sL` whose spare darts are already linked; the vertex
+    storage of `sL` is that of the input).  No sew or unsew of the kernel moves it: they only touch identifiers of other
+    vertices (`MidInv`). -/
+theorem C15_cut_midpoint_in_final_map (cfg : Cfg Val) (m m' : Map Val) (e nd1 nd2 nd3 : Nat) (hwf : WF 3 m)
+    (hfc : m.fc = 0) (he : C01.InUse m e) (h2e : m.β 2 e = 0)
+    (h : run (cutOuterEdge cfg m.n e nd1 nd2 nd3) m = (.ok (), m'))
+    (htri : m.β 1 (m.β 1 e) = m.β 0 e) (hb : m.β 0 e ≠ 0)
+    (s1 : Spare m nd1) (s2 : Spare m nd2) (s3 : Spare m nd3)
+    (hnd : [e, m.β 1 e, m.β 0 e, nd1, nd2, nd3].Nodup) :
+    ∃ (sL : Map Val) (v1 v2 : Nat) (va vb : Val),
+      sL.β = lnk1 (lnk2 m.β nd1 nd2) nd2 nd3 ∧ (∀ x, sL.att 0 x = m.att 0 x) ∧
+      run (vertexId2 m.n e) sL = (.ok v1, sL) ∧ run (vertexId2 m.n (m.β 1 e)) sL = (.ok v2, sL) ∧
+      m.att 0 v1 = some va ∧ m.att 0 v2 = some vb ∧
+      cellId m' .vertex nd1 = min nd1 nd3 ∧
+      m'.att 0 (cellId m' .vertex nd1) = some (avgVal va vb) := by
+  obtain ⟨hw', _, _, _, _, _, hvtx⟩ := C15_cutOuter_cells cfg m m' e nd1 nd2 nd3 hwf he h htri hb s1 s2 s3 hnd
+  have a0 : m.β 1 e ≠ 0 := fun hh => hb (by rw [← htri, hh]; exact hwf.null 1 (by omega))
+  have hnd' := hnd
+  simp only [List.nodup_cons, List.mem_cons, List.mem_nil_iff, not_or, or_false, List.nodup_nil, and_true] at hnd'
+  obtain ⟨⟨d1, d2, d3, d4, d5⟩, ⟨d6, d7, d8, d9⟩, ⟨d10, d11, d12⟩, ⟨d13, d14⟩, d15, _⟩ := hnd'
+  have L1 : Live m.n m.u nd1 := Live.of_inUse s1.1
+  have L2 : Live m.n m.u nd2 := Live.of_inUse s2.1
+  have L3 : Live m.n m.u nd3 := Live.of_inUse s3.1
+  have Le : Live m.n m.u e := Live.of_inUse he
+  have La : Live m.n m.u (m.β 1 e) := live_image hwf (by omega) he.2.1 a0
+  have Lb : Live m.n m.u (m.β 0 e) := live_image hwf (by omega) he.2.1 hb
+  have z2 := hwf.null 2 (by omega)
+  have z1 := hwf.null 1 (by omega)
+  have z0 := hwf.null 0 (by omega)
+  unfold cutOuterEdge at h
+  obtain ⟨_, m1, r1, h1⟩ := run_bind_ok h
+  clear h
+  have I1 := Keeps.twoLinkCore (X := Val) L1 L2 d13 m m1 _ (Inv.of_wf hwf) r1
+  obtain ⟨_, _, st1⟩ := step_twoLinkCore r1
+  obtain ⟨_, m2, r2, h2⟩ := run_bind_ok h1
+  clear h1
+  have I2 := Keeps.oneLinkCore (X := Val) L2 L3 m1 m2 _ I1 r2
+  obtain ⟨_, _, st2⟩ := step_oneLinkCore r2
+  have b2 : m2.β = lnk1 (lnk2 m.β nd1 nd2) nd2 nd3 := by rw [st2.β, st1.β]
+  have fc2 : m2.fc = 0 := by rw [(link1_fc r2).1, (linkI_fc r1).1]; exact hfc
+  have at2 : ∀ x, m2.att 0 x = m.att 0 x := fun x => by rw [(link1_fc r2).2.1, (linkI_fc r1).2.1]
+  obtain ⟨fa, m3, r3, h3⟩ := run_bind_ok h2
+  clear h2
+  have I3 := inv_attrOnly (ao_takeFaceAnchor cfg m.n e) I2 r3
+  have b3 : m3.β = lnk1 (lnk2 m.β nd1 nd2) nd2 nd3 := by
+    rw [β_of_sameTopo (AttrOnly.run_ok (ao_takeFaceAnchor cfg m.n e) r3)]; exact b2
+  obtain ⟨fc3', at3'⟩ := keeps0_takeFaceAnchor cfg m.n e m2 m3 fa r3
+  have fc3 : m3.fc = 0 := by rw [fc3']; exact fc2
+  have at3 : ∀ x, m3.att 0 x = m.att 0 x := fun x => by rw [at3', at2]
+  obtain ⟨ea, _, h4⟩ := ro_bind_ok (ro_peekEdgeAnchor cfg e) h3
+  clear h3
+  obtain ⟨_, h5⟩ := HC.C15.rB_ok h4
+  clear h4
+  obtain ⟨_, h6⟩ := HC.C15.rB_ok h5
+  clear h5
+  have v0e : m3.β 0 e = m.β 0 e := by
+    rw [b3]; simp [lnk1, lnk2, upd_apply, Ne.symm d5, Ne.symm d4, Ne.symm d3]
+  have v1e : m3.β 1 e = m.β 1 e := by
+    rw [b3]; simp [lnk1, lnk2, upd_apply, Ne.symm d5, Ne.symm d4, Ne.symm d3]
+  rw [v0e, v1e] at h6
+  obtain ⟨v1, hv1, h7⟩ := ro_bind_ok (readOnly_vertexId2 _ _) h6
+  clear h6
+  obtain ⟨v2, hv2, h8⟩ := ro_bind_ok (readOnly_vertexId2 _ _) h7
+  clear h7
+  obtain ⟨newV, hmid, h9⟩ := ro_bind_ok (ro_midpointOrRetry _ _) h8
+  clear h8
+  obtain ⟨vid, hvid, h10⟩ := ro_bind_ok (readOnly_vertexId2 _ _) h9
+  clear h9
+  obtain ⟨old, m5, r5, h11⟩ := run_bind_ok h10
+  clear h10
+  -- the value read
+  have hval : ∃ va vb, m3.att 0 v1 = some va ∧ m3.att 0 v2 = some vb ∧ newV = avgVal va vb := by
+    unfold midpointOrRetry at hmid
+    obtain ⟨_, hmid⟩ := rA_ok hmid
+    obtain ⟨_, hmid⟩ := rA_ok hmid
+    cases ha : m3.att 0 v1 <;> cases hb' : m3.att 0 v2 <;> simp [ha, hb'] at hmid
+    exact ⟨_, _, rfl, rfl, hmid.symm⟩
+  obtain ⟨va, vb, hva, hvb, rfl⟩ := hval
+  -- the new vertex at the time of the write
+  have nv3 : NV m3.β nd1 nd2 nd3 := by
+    rw [b3]
+    refine ⟨?_, ?_, ?_, ?_, ?_, ?_⟩ <;>
+      simp [lnk1, lnk2, upd_apply, s1.β 0 (by omega), s3.β 2 (by omega), z2, d13, d14, d15, Ne.symm d13, Ne.symm d14,
+        Ne.symm d15, s1.1.1, s2.1.1, s3.1.1, Ne.symm s1.1.1, Ne.symm s2.1.1, Ne.symm s3.1.1]
+  have A3 := vertex_of_NV I3.wf nv3 L1.1 (by rw [I3.n_eq]; exact L1.2.1) L3.1 (by rw [I3.n_eq]; exact L3.2.1)
+  have evid : vid = min nd1 nd3 := by
+    have := (C03_vertexId2_min I3.wf L1.1 (by rw [I3.n_eq]; exact L1.2.1)).1
+    rw [I3.n_eq] at this
+    rw [run_inj hvid this, A3.1]
+  have I5 := inv_attrOnly (ao_writeVtx vid (avgVal va vb)) I3 r5
+  have e5 : m5 = m3.setA 0 vid (some (avgVal va vb)) ∧ m3.okA 0 vid = true := by
+    unfold writeVtx at r5
+    obtain ⟨hok, r5⟩ := rA_ok r5
+    obtain ⟨_, r5⟩ := wA_ok r5
+    simp at r5
+    exact ⟨r5.2.symm, hok⟩
+  have b5 : m5.β = lnk1 (lnk2 m.β nd1 nd2) nd2 nd3 := by rw [e5.1]; exact b3
+  have J5 : MidInv m.n m.u nd1 nd2 nd3 (avgVal va vb) m5 := by
+    refine ⟨I5, by rw [e5.1]; exact fc3, by rw [b5, ← b3]; exact nv3, ?_⟩
+    rw [e5.1, Map.att_setA, evid]; simp [← evid, e5.2]
+  -- β2 is never touched again; the six β1 images needed below
+  have two : ∀ x, lnk1 (lnk2 m.β nd1 nd2) nd2 nd3 2 x = if x = nd1 then nd2 else if x = nd2 then nd1 else m.β 2 x := by
+    intro x
+    simp only [lnk1, lnk2, upd_apply]
+    by_cases x1 : x = nd1
+    · subst x1; simp [d13, Ne.symm d13]
+    · by_cases x2 : x = nd2
+      · subst x2; simp [d13, Ne.symm d13]
+      · simp [x1, x2, Ne.symm x1, Ne.symm x2]
+  have a2 : m.β 2 (m.β 1 e) ≠ nd1 ∧ m.β 2 (m.β 1 e) ≠ nd3 :=
+    ⟨beta2_ne_spare hwf s1 La.2.1, beta2_ne_spare hwf s3 La.2.1⟩
+  -- unsew e
+  obtain ⟨_, m6, r6, h12⟩ := run_bind_ok h11
+  clear h11
+  have s6 := (step_oneUnsew2 r6).2
+  have J6 := J5.unsew1 L1 L3 r6 Le d4 (by rw [b5]; simp [lnk1, lnk2, upd_apply, Ne.symm d4, Ne.symm d3, d9])
+    (by intro hh; exfalso; apply hh; rw [b5, two]; simp [d3, d4, h2e])
+  have b6 : m6.β = unl1 (lnk1 (lnk2 m.β nd1 nd2) nd2 nd3) e := by rw [s6.β, b5]
+  -- unsew β1 e
+  obtain ⟨_, m7, r7, h13⟩ := run_bind_ok h12
+  clear h12
+  have s7 := (step_oneUnsew2 r7).2
+  have v6 : m6.β 1 (m.β 1 e) = m.β 0 e := by
+    rw [b6]; simp [unl1, lnk1, lnk2, upd_apply, Ne.symm d1, Ne.symm d8, Ne.symm d7, Ne.symm d9, htri, d1]
+  have w6 : m6.β 2 (m.β 1 e) = m.β 2 (m.β 1 e) := by rw [b6, unl1_two, two]; simp [d7, d8]
+  have J7 := J6.unsew1 L1 L3 r7 La d8 (by rw [v6]; exact d12)
+    (by intro _; rw [v6, w6]; exact ⟨d10, a2.1, a2.2⟩)
+  have b7 : m7.β = unl1 (unl1 (lnk1 (lnk2 m.β nd1 nd2) nd2 nd3) e) (m.β 1 e) := by rw [s7.β, b6]
+  -- sew e nd1
+  obtain ⟨_, m8, r8, h14⟩ := run_bind_ok h13
+  clear h13
+  have s8 := (step_oneSew2 r8).2.2
+  have w7 : m7.β 2 e = 0 := by rw [b7, unl1_two, unl1_two, two]; simp [d3, d4, h2e]
+  have J8 := J7.sew1 L1 L3 r8 Le L1 d4 d14 (fun _ => w7) (fun hh => absurd w7 hh)
+  have b8 : m8.β = lnk1 (unl1 (unl1 (lnk1 (lnk2 m.β nd1 nd2) nd2 nd3) e) (m.β 1 e)) e nd1 := by rw [s8.β, b7]
+  -- sew nd1 (β0 e)
+  obtain ⟨_, m9, r9, h15⟩ := run_bind_ok h14
+  clear h14
+  have s9 := (step_oneSew2 r9).2.2
+  have w8 : m8.β 2 nd1 = nd2 := by rw [b8, lnk1_two, unl1_two, unl1_two, two]; simp
+  have J9 := J8.sew1 L1 L3 r9 L1 Lb d13 d12 (fun hh => absurd hh d10)
+    (by intro _; rw [w8]; exact ⟨Ne.symm d13, d15, d10⟩)
+  have b9 : m9.β = lnk1 (lnk1 (unl1 (unl1 (lnk1 (lnk2 m.β nd1 nd2) nd2 nd3) e) (m.β 1 e)) e nd1) nd1 (m.β 0 e) := by
+    rw [s9.β, b8]
+  -- sew nd3 (β1 e)
+  obtain ⟨_, m10, r10, h16⟩ := run_bind_ok h15
+  clear h15
+  have s10 := (step_oneSew2 r10).2.2
+  have w9 : m9.β 2 nd3 = 0 := by
+    rw [b9, lnk1_two, lnk1_two, unl1_two, unl1_two, two]; simp [Ne.symm d14, Ne.symm d15, s3.β 2 (by omega)]
+  have J10 := J9.sew1 L1 L3 r10 L3 La (Ne.symm d15) d9 (fun hh => absurd hh d7) (fun hh => absurd w9 hh)
+  have b10 : m10.β = lnk1 (lnk1 (lnk1 (unl1 (unl1 (lnk1 (lnk2 m.β nd1 nd2) nd2 nd3) e) (m.β 1 e)) e nd1) nd1 (m.β 0 e))
+      nd3 (m.β 1 e) := by rw [s10.β, b9]
+  -- sew (β1 e) nd2
+  obtain ⟨_, m11, r11, h17⟩ := run_bind_ok h16
+  clear h16
+  have w10 : m10.β 2 (m.β 1 e) = m.β 2 (m.β 1 e) := by
+    rw [b10, lnk1_two, lnk1_two, lnk1_two, unl1_two, unl1_two, two]; simp [d7, d8]
+  have J11 := J10.sew1 L1 L3 r11 La L2 d8 d15 (fun hh => absurd hh (Ne.symm d13))
+    (by intro _; rw [w10]; exact ⟨a2.1, a2.2, Ne.symm d13⟩)
+  -- the anchors
+  obtain ⟨_, m12, r12, h18⟩ := run_bind_ok h17
+  clear h17
+  obtain ⟨_, at12⟩ := keeps0_spreadFaceAnchor cfg m.n fa nd1 nd2 m11 m12 _ r12
+  obtain ⟨_, at13⟩ := keeps0_spreadEdgeAnchorOuter cfg m.n ea nd1 nd3 m12 m' _ h18
+  refine ⟨m3, v1, v2, va, vb, b3, at3, hv1, hv2, by rw [← at3]; exact hva, by rw [← at3]; exact hvb, hvtx h2e, ?_⟩
+  rw [hvtx h2e, at13, at12]
+  exact J11.val
+
+/-! ## non-vacuity -/
+
+def sq3 : Map Val := (unitSquare.addFreeDarts 3).2
+def sq6 : Map Val := (unitSquare.addFreeDarts 6).2
+
+theorem run_eq_of_fst {α : Type} {p : P Val α} {m : Map Val} {a : α} (h : (run p m).1 = .ok a) :
+    run p m = (.ok a, (run p m).2) := Prod.ext h rfl
+
+/-- the hypotheses of `C15_swap_topology` hold for `swap_edge(2)` on the unit square -/
+example : ∃ m', run (swapEdge (stdCfg 3 0) unitSquare.n 2) unitSquare = (.ok (), m') ∧ WF 3 unitSquare ∧
+    unitSquare.β 0 2 ≠ 0 ∧ unitSquare.β 0 (unitSquare.β 2 2) ≠ 0 ∧
+    [2, unitSquare.β 2 2, unitSquare.β 1 2, unitSquare.β 0 2, unitSquare.β 1 (unitSquare.β 2 2),
+      unitSquare.β 0 (unitSquare.β 2 2)].Nodup :=
+  ⟨_, run_eq_of_fst (by decide +kernel), by decide, by decide, by decide, by decide⟩
+
+/-- the hypotheses of `C15_cutOuter_topology`, `C15_cutOuter_cells` and `C15_cut_midpoint_in_final_map` hold for
+    `cut_outer_edge(1, [9, 8, 7])` (the numbering that used to lose the vertex) on the unit square -/
+example : ∃ m', run (cutOuterEdge (stdCfg 3 0) sq3.n 1 9 8 7) sq3 = (.ok (), m') ∧ WF 3 sq3 ∧ sq3.fc = 0 ∧
+    C01.InUse sq3 1 ∧ sq3.β 2 1 = 0 ∧ sq3.β 1 (sq3.β 1 1) = sq3.β 0 1 ∧ sq3.β 0 1 ≠ 0 ∧
+    Spare sq3 9 ∧ Spare sq3 8 ∧ Spare sq3 7 ∧ [1, sq3.β 1 1, sq3.β 0 1, 9, 8, 7].Nodup :=
+  ⟨_, run_eq_of_fst (by decide +kernel), by decide +kernel, by decide +kernel, by decide +kernel, by decide +kernel,
+    by decide +kernel, by decide +kernel, ⟨by decide +kernel, by decide +kernel⟩, ⟨by decide +kernel, by decide +kernel⟩,
+    ⟨by decide +kernel, by decide +kernel⟩, by decide +kernel⟩
+
+/-- … and the conclusion there: the new vertex has identifier 7 and holds (1/2, 0) -/
+example : (run (cutOuterEdge (stdCfg 3 0) sq3.n 1 9 8 7) sq3).2.att 0 7 = some (.pt (1/2) 0 0) := by decide +kernel
+
+/-- the hypotheses of `C15_cutInner_topology` hold for `cut_inner_edge(2, [12 … 7])` on the unit square -/
+example : ∃ m', run (cutInnerEdge (stdCfg 3 0) sq6.n 2 12 11 10 9 8 7) sq6 = (.ok (), m') ∧ WF 3 sq6 ∧ sq6.β 2 2 ≠ 0 ∧
+    sq6.β 1 (sq6.β 1 2) = sq6.β 0 2 ∧ sq6.β 0 2 ≠ 0 ∧
+    sq6.β 1 (sq6.β 1 (sq6.β 2 2)) = sq6.β 0 (sq6.β 2 2) ∧ sq6.β 0 (sq6.β 2 2) ≠ 0 ∧
+    [2, sq6.β 2 2, sq6.β 1 2, sq6.β 0 2, sq6.β 1 (sq6.β 2 2), sq6.β 0 (sq6.β 2 2), 12, 11, 10, 9, 8, 7].Nodup :=
+  ⟨_, run_eq_of_fst (by decide +kernel), by decide +kernel, by decide +kernel, by decide +kernel, by decide +kernel,
+    by decide +kernel, by decide +kernel, by decide +kernel⟩
+
+/-! ## (3) collapse_edge: the side conditions of `C15_collapse_preserves_WF`, discharged
+
+`TrJ p Pre F U`: from a state whose map-with-original-flags is well formed and whose β function satisfies `Pre`, every
+successful run of `p` ends in such a state again, with β function `F f` and flags `U f u` (`f`, `u` the initial ones).
+`Pre` collects the facts "this sew is handed non-null, distinct darts" as propositions about the INITIAL β function. -/
+
+abbrev BF := Nat → Nat → Nat
+
+def TrJ (n : Nat) (u0 : Array Bool) {α : Type} (p : P Val α) (Pre : BF → Prop) (F : BF → BF)
+    (U : BF → Array Bool → Array Bool) : Prop :=
+  ∀ (m m' : Map Val) (a : α), InvJ n u0 m → Pre m.β → run p m = (.ok a, m') →
+    InvJ n u0 m' ∧ m'.β = F m.β ∧ m'.u = U m.β m.u
+
+section
+variable {n : Nat} {u : Array Bool} {α β : Type}
+
+theorem TrJ.bind {p : P Val α} {q : α → P Val β} {P1 P2 : BF → Prop} {F1 F2 : BF → BF}
+    {U1 U2 : BF → Array Bool → Array Bool} (hp : TrJ n u p P1 F1 U1) (hq : ∀ a, TrJ n u (q a) P2 F2 U2) :
+    TrJ n u (p.bind q) (fun f => P1 f ∧ P2 (F1 f)) (fun f => F2 (F1 f)) (fun f w => U2 (F1 f) (U1 f w)) := by
+  intro m m' b hi hpre h
+  obtain ⟨a, m1, h1, h2⟩ := run_bind_ok h
+  obtain ⟨i1, b1, u1⟩ := hp m m1 a hi hpre.1 h1
+  obtain ⟨i2, b2, u2⟩ := hq a m1 m' b i1 (by rw [b1]; exact hpre.2) h2
+  exact ⟨i2, by rw [b2, b1], by rw [u2, b1, u1]⟩
+
+/-- pieces that keep the invariant unconditionally and whose β effect is known -/
+theorem TrJ.of {p : P Val α} {F : BF → BF} (hk : KeepsJ n u p) (he : Eff p F) :
+    TrJ n u p (fun _ => True) F (fun _ w => w) := by
+  intro m m' a hi _ h
+  have s := he m m' a h
+  exact ⟨hk m m' a hi h, s.β, s.u⟩
+
+theorem TrJ.attr {p : P Val α} (hp : AttrOnly p) : TrJ n u p (fun _ => True) (fun f => f) (fun _ w => w) :=
+  TrJ.of (KeepsJ.of_attrOnly hp) (Eff.attr hp)
+
+theorem TrJ.ro {p : P Val α} (hp : ReadOnly p) : TrJ n u p (fun _ => True) (fun f => f) (fun _ w => w) :=
+  TrJ.attr (AttrOnly.of_readOnly hp)
+
+theorem TrJ.rB_bind {i d : Nat} {k : Nat → P Val β} {P : Nat → BF → Prop} {G : Nat → BF → BF}
+    {V : Nat → BF → Array Bool → Array Bool}
+    (hk : ∀ x, (x ≠ 0 → Live n u x) → TrJ n u (k x) (P x) (G x) (V x)) :
+    TrJ n u ((rB i d).bind k) (fun f => P (f i d) f) (fun f => G (f i d) f) (fun f w => V (f i d) f w) := by
+  intro m m' b hi hpre h
+  obtain ⟨hok, h⟩ := HC.C15.rB_ok h
+  have hid := (hi.wf.toSized.okβ i d).1 hok
+  refine hk (m.β i d) (fun hne => ?_) m m' b hi hpre h
+  have := live_image hi.wf hid.1 hid.2 hne
+  exact ⟨this.1, by rw [← hi.n_eq]; exact this.2.1, this.2.2⟩
+
+theorem TrJ.oneUnsew2 (cfg : Cfg Val) {l : Nat} (hl : l ≠ 0 → Live n u l) :
+    TrJ n u (HC.oneUnsew2 cfg n l) (fun _ => True) (fun f => unl1 f l) (fun _ w => w) :=
+  TrJ.of (keepsJ_oneUnsew2_opt cfg n hl) (Eff.oneUnsew2 cfg n l)
+
+theorem TrJ.twoUnsew2 (cfg : Cfg Val) {l : Nat} (hl : l ≠ 0 → Live n u l) :
+    TrJ n u (HC.twoUnsew2 cfg n l) (fun _ => True) (fun f => unl2 f l) (fun _ w => w) :=
+  TrJ.of (keepsJ_twoUnsew2_opt cfg n hl) (Eff.twoUnsew2 cfg n l)
+
+/-- a 2-sew of darts read in the kernel: allowed when they are non-null and distinct -/
+theorem TrJ.twoSew2 (cfg : Cfg Val) {x y : Nat} (hx : x ≠ 0 → Live n u x) (hy : y ≠ 0 → Live n u y) :
+    TrJ n u (HC.twoSew2 cfg n x y) (fun _ => x ≠ 0 ∧ y ≠ 0 ∧ x ≠ y) (fun f => lnk2 f x y) (fun _ w => w) := by
+  intro m m' a hi hpre h
+  have s := Eff.twoSew2 cfg n x y m m' a h
+  exact ⟨keepsJ_twoSew2 cfg n (hx hpre.1) (hy hpre.2.1) hpre.2.2 m m' a hi h, s.β, s.u⟩
+
+theorem TrJ.oneSew2 (cfg : Cfg Val) {x y : Nat} (hx : x ≠ 0 → Live n u x) (hy : y ≠ 0 → Live n u y) :
+    TrJ n u (HC.oneSew2 cfg n x y) (fun _ => x ≠ 0 ∧ y ≠ 0) (fun f => lnk1 f x y) (fun _ w => w) := by
+  intro m m' a hi hpre h
+  have s := Eff.oneSew2 cfg n x y m m' a h
+  exact ⟨keepsJ_oneSew2 cfg n (hx hpre.1) (hy hpre.2) m m' a hi h, s.β, s.u⟩
+
+/-- flagging: β untouched, one flag set -/
+theorem TrJ.flag (d : Nat) :
+    TrJ n u (HC.removeFreeDartTx (X := Val) d) (fun _ => True) (fun f => f) (fun _ w => wr w d true) := by
+  intro m m' a hi _ h
+  have k := KeepsJ.removeFreeDartTx (n := n) (u := u) d m m' a hi h
+  rw [run_removeFreeDartTx] at h
+  by_cases hok : m.okU d = true
+  · simp only [hok, if_true, Prod.mk.injEq] at h
+    rw [← h.2]
+    exact ⟨by rw [h.2]; exact k, rfl, rfl⟩
+  · simp [hok] at h
+
+theorem TrJ.pure (a : α) : TrJ n u (Pure.pure a : P Val α) (fun _ => True) (fun f => f) (fun _ w => w) :=
+  TrJ.ro (ReadOnly.pure a)
+
+end
+
+section
+variable {n : Nat} {u : Array Bool}
+
+theorem TrJ.conv {α : Type} {p : P Val α} {Pre Pre' : BF → Prop} {F F' : BF → BF} {U U' : BF → Array Bool → Array Bool}
+    (h : TrJ n u p Pre F U) (hP : ∀ f, Pre' f → Pre f) (hF : ∀ f, F f = F' f) (hU : ∀ f w, U f w = U' f w) :
+    TrJ n u p Pre' F' U' := by
+  intro m m' a hi hpre hr
+  obtain ⟨i1, b1, u1⟩ := h m m' a hi (hP _ hpre) hr
+  exact ⟨i1, by rw [b1, hF], by rw [u1, hU]⟩
+
+/-- β function after the three 1-unsews of a half cell -/
+def halfG (b0d d b1d : Nat) (f : BF) : BF := unl1 (unl1 (unl1 f d) b1d) b0d
+/-- the 2-sew of `collapse_halfcell_to_midpoint` is handed two non-null, distinct darts -/
+def halfMidPre (b0d d b1d : Nat) (f : BF) : Prop :=
+  halfG b0d d b1d f 2 b0d ≠ 0 ∧ halfG b0d d b1d f 2 b1d ≠ 0 ∧ halfG b0d d b1d f 2 b0d ≠ halfG b0d d b1d f 2 b1d
+/-- β function after `collapse_halfcell_to_midpoint` -/
+def halfMidF (b0d d b1d : Nat) (f : BF) : BF :=
+  lnk2 (unl2 (unl2 (halfG b0d d b1d f) b0d) b1d) (halfG b0d d b1d f 2 b0d) (halfG b0d d b1d f 2 b1d)
+def halfMidU (b0d d b1d : Nat) (w : Array Bool) : Array Bool := wr (wr (wr w d true) b0d true) b1d true
+
+theorem trj_halfMid (cfg : Cfg Val) {b0d d b1d : Nat} (h0 : b0d ≠ 0 → Live n u b0d) (hd : d ≠ 0 → Live n u d)
+    (h1 : b1d ≠ 0 → Live n u b1d) :
+    TrJ n u (collapseHalfMid cfg n b0d d b1d) (halfMidPre b0d d b1d) (halfMidF b0d d b1d)
+      (fun _ w => halfMidU b0d d b1d w) := by
+  unfold collapseHalfMid
+  have key :=
+    TrJ.bind (TrJ.oneUnsew2 cfg hd) fun _ =>
+    TrJ.bind (TrJ.oneUnsew2 cfg h1) fun _ =>
+    TrJ.bind (TrJ.oneUnsew2 cfg h0) fun _ =>
+    TrJ.rB_bind (i := 2) (d := b0d) fun x hx =>
+    TrJ.rB_bind (i := 2) (d := b1d) fun y hy =>
+    TrJ.bind (TrJ.twoUnsew2 cfg h0) fun _ =>
+    TrJ.bind (TrJ.twoUnsew2 cfg h1) fun _ =>
+    TrJ.bind (TrJ.twoSew2 (n := n) (u := u) cfg (x := x) (y := y) hx hy) fun _ =>
+    TrJ.bind (TrJ.flag (n := n) (u := u) d) fun _ =>
+    TrJ.bind (TrJ.flag (n := n) (u := u) b0d) fun _ =>
+    TrJ.bind (TrJ.flag (n := n) (u := u) b1d) fun _ => TrJ.pure (n := n) (u := u) ()
+  refine key.conv ?_ (fun f => rfl) (fun f w => rfl)
+  intro f hf
+  unfold halfMidPre halfG at hf
+  exact ⟨trivial, trivial, trivial, trivial, trivial, hf, trivial, trivial, trivial, trivial⟩
+
 end
 
 end HC.C15
